@@ -54,7 +54,7 @@ func (c *Confirmer) TryConfirm(block *types.Block) (types.SignData, bool) {
 		return types.SignData{}, false
 	}
 
-	if block.IsConfirmExist(sig) {
+	if block.IsConfirmExist(sig) || isSignedBySelf(block) {
 		return types.SignData{}, false
 	}
 
@@ -159,6 +159,23 @@ func (c *Confirmer) SetLastSig(block *types.Block) {
 	}
 }
 
+// isSignedBySelf tests whether this node has signed the block already, in ANY encoding of its signature
+// (a peer can re-encode a signature as (r, N-s, v^1)): as the miner or in one of the confirms. IsConfirmExist
+// compares bytes only, and IsConfirmEnough counts signatures, so a second signature would count twice.
+func isSignedBySelf(block *types.Block) bool {
+	self := deputynode.GetSelfNodeID()
+	if nodeID, err := block.SignerNodeID(); err == nil && bytes.Compare(nodeID, self) == 0 {
+		return true
+	}
+	hash := block.Hash()
+	for _, confirm := range block.Confirms {
+		if nodeID, err := confirm.RecoverNodeID(hash); err == nil && bytes.Compare(nodeID, self) == 0 {
+			return true
+		}
+	}
+	return false
+}
+
 func IsMinedByself(block *types.Block) bool {
 	nodeID, err := block.SignerNodeID()
 	if err != nil {
@@ -183,7 +200,7 @@ func (c *Confirmer) tryConfirmStable(block *types.Block) *types.SignData {
 		return nil
 	}
 
-	if block.IsConfirmExist(sig) {
+	if block.IsConfirmExist(sig) || isSignedBySelf(block) {
 		return nil
 	}
 
